@@ -297,8 +297,21 @@ def do_op(w, DataSet, op, real, model, n, dd, where, rng):
             model.range = (r0, r1)
             fac = sc
             Xr = np.asarray(real[0], dtype=float).reshape(n, -1)
+            # a dimension whose extremes differ only by rounding left over from earlier operations (spread of a few ulp) is
+            # neither "max > min" nor "constant" in a meaningful sense (scikit-learn treats a spread below 10 eps as constant):
+            # such a dimension is not judged and the model follows the library there
+            degenerate = (mx > mn) & ((mx - mn) <= 1e-13 * np.maximum(1.0, np.maximum(np.abs(mx), np.abs(mn))))
+            if degenerate.any():
+                res.note("scale_range_on_dimension_with_rounding_level_spread_not_judged")
+                rf = np.asarray(real.get_scaling_factor(), dtype=float).reshape(-1) if first else None
+                for k in np.where(degenerate)[0]:
+                    model.X[:, k] = Xr[:, k]
+                    if rf is not None and len(rf) == dd:
+                        fac[k] = rf[k]
+                    else:
+                        fac[k] = 1.0
             for k in range(dd):
-                if mx[k] > mn[k]:
+                if mx[k] > mn[k] and not degenerate[k]:
                     res.close("scale_range_maps_extremes", [Xr[:, k].min(), Xr[:, k].max()], [r0, r1],
                               1e-12 * max(1.0, abs(r0), abs(r1)), "C18_scale_range_extremes",
                               "%s: minimum/maximum of dimension %d not mapped onto the range ends" % (where, k), w.ctx())
@@ -329,6 +342,8 @@ def do_op(w, DataSet, op, real, model, n, dd, where, rng):
         else:
             if op != "shift_value":
                 model.factor = model.factor * fac
+        if op == "scale_range" and n and degenerate.any():
+            model.factor = _cp(real.get_scaling_factor())      # the model follows the library on the unjudged dimension(s)
         w.verify(real, model, where, tol=1e-12 * 16)
         w.verify_attrs(real, model, where)
         w.verify_population(where, skip=(real,))
